@@ -15,6 +15,7 @@ import (
 	"fmt"
 	"os"
 	"runtime"
+	"runtime/debug"
 	"runtime/pprof"
 	"sort"
 	"strings"
@@ -608,6 +609,10 @@ func main() {
 		pprof.StartCPUProfile(f)
 		defer pprof.StopCPUProfile()
 	}
+	// the live heap is tiny and the allocation rate huge: collect only when 1 GiB of garbage has
+	// piled up, otherwise the run is dominated by stop-the-world pauses on a loaded machine
+	debug.SetGCPercent(-1)
+	debug.SetMemoryLimit(1 << 30)
 	run := ev.Start("C07", "exploration")
 	thorough := run.Thorough()
 
